@@ -211,7 +211,20 @@ func (m *Manager) onEIOPacket(packets ...*eioparser.Packet) {
 		case eioparser.PacketTypeMessage:
 			err := m.parser.Add(packet.Data, m.onParserFinish)
 			if err != nil {
-				go m.onClose(ReasonParseError, err)
+				go func() {
+					m.eioMu.RLock()
+					eio := m.eio
+					m.eioMu.RUnlock()
+
+					// `onClose` mutes the callbacks of the connection (see `cleanup`).
+					m.onClose(ReasonParseError, err)
+
+					// Don't leave the connection open: nothing listens to it anymore,
+					// yet it would keep answering the pings of the server.
+					if eio != nil {
+						eio.Close()
+					}
+				}()
 				return
 			}
 		case eioparser.PacketTypePing:
